@@ -179,6 +179,7 @@ func main() {
 	// composite harnesses (built here: init order of the files is alphabetical)
 	properties["m1"] = append(append([]*Entry{}, properties["m1c"]...), properties["m1s"]...) // shared by C01 C02 C07 C09 C10 C11 C16
 	properties["c08"] = append(append([]*Entry{}, properties["c08rt"]...), properties["m1"]...)
+	properties["c11"] = append(append([]*Entry{}, properties["c11rt"]...), properties["m1"]...)
 	fs := flag.NewFlagSet(name, flag.ExitOnError)
 	var cfg config
 	fs.Int64Var(&cfg.seed, "seed", 1, "PRNG seed")
